@@ -19,7 +19,7 @@ from minecraft.exceptions import IgnorePacket
 
 from pyvc.driver import Unit
 from pyvc.models import AbstractSeq
-from pyvc.values import SInt, SBool, And, Or, Not, Implies, mk_bool
+from pyvc.values import SInt, SBool, And, Or, Not, Implies, mk_bool, Unsupported
 from pyvc.interp import PyRaise
 from pyvc.loops import ForSpec
 from pyvc.harness import native_call
@@ -92,7 +92,7 @@ class Dispatch(Unit):
         f = raw(Connection, self.which)
         keys = loop_keys(f, C_ + self.which, kind=ast.For)
         if len(keys) != 2:
-            raise RuntimeError('%s no longer has two listener loops' % self.which)
+            raise Unsupported('contract does not fit the code any more: %s no longer has two listener loops' % self.which)
         unit = self
 
         def mk(kind, key):
